@@ -844,7 +844,9 @@ func (c *Conn) dispatch(fr *FrameHeader) bool {
 
 	err := c.readStream(fr, r.Response)
 	if err == nil {
-		if fr.Flags().Has(FlagEndStream) {
+		// END_STREAM only exists on DATA and HEADERS; on any other frame type
+		// the bit is undefined and must be ignored (RFC 7540 4.1).
+		if (fr.Type() == FrameData || fr.Type() == FrameHeaders) && fr.Flags().Has(FlagEndStream) {
 			c.finish(r, fr.Stream(), nil)
 		}
 	} else {
